@@ -64,6 +64,8 @@ def run(ctx):
     norms(ctx, table)
     reductions(ctx, table)
     shifts(ctx, table)
+    block_contents(ctx, table)
+    rep.floor('R5c', 4)
     div0(ctx)
     conversions(ctx, table)
     rep.floor('CFG-1a', 4 * 50)
@@ -700,3 +702,118 @@ def conversions(ctx, table):
                                      **({} if okp else {'key': 'a_real_pol2cart: formula'}))
     except (Unsupported, KeyError) as e:
         rep.unk('R6', 'cart2pol/pol2cart', str(e))
+
+
+# ---------------------------------------------------------------- R5c: contents of the block forms (symbolic index query over several arrays)
+def block_contents(ctx, table):
+    """push_fore_/push_back_ put the last min(cache_n, block_n) cache elements, in order, in front of / behind the shifted block;
+    roll_fore_/roll_back_ rotate the block by shift_n mod block_n through the shift buffer.  Decided for a fresh position of the
+    result by walking the block effects backwards (Fourier-Motzkin case splits); the block sizes are symbols."""
+    import fm, lin
+    rep = ctx.rep
+    bn = sp.Symbol('bn', integer=True, nonnegative=True)
+    cn = sp.Symbol('cn', integer=True, nonnegative=True)
+    pos = sp.Symbol('pos', integer=True, nonnegative=True)
+    L = fm.le
+
+    def spec(name, s):
+        """[(case conds, [(piece conds, (array, index))])]; s = shift_n mod block_n for the rolls"""
+        if name == 'a_real_push_back_':
+            out = []
+            for cs, n_ in (([L(cn, bn)], cn), ([L(bn + 1, cn)], bn)):
+                out.append((cs, [([L(pos, bn - n_ - 1)], ('B', pos + n_)), ([L(bn - n_, pos)], ('C', cn - bn + pos))]))
+            return out
+        if name == 'a_real_push_fore_':
+            out = []
+            for cs, n_ in (([L(cn, bn)], cn), ([L(bn + 1, cn)], bn)):
+                out.append((cs, [([L(pos, n_ - 1)], ('C', cn - n_ + pos)), ([L(n_, pos)], ('B', pos - n_))]))
+            return out
+        if name == 'a_real_roll_fore_':
+            return [([], [([L(pos, bn - s - 1)], ('B', pos + s)), ([L(bn - s, pos)], ('B', pos - (bn - s)))])]
+        if name == 'a_real_roll_back_':
+            return [([], [([L(pos, s - 1)], ('B', pos + (bn - s))), ([L(s, pos)], ('B', pos - s))])]
+    for name in ('a_real_push_fore_', 'a_real_push_back_', 'a_real_roll_fore_', 'a_real_roll_back_'):
+        fn = ctx.fn('math', name)
+        if fn is None:
+            rep.unk('R5c', name, 'anchor vanished')
+            continue
+        loc = fn.loc(fn.entry.instrs[0])
+        try:
+            dom = RDom(table)
+            dom.syms['bn'], dom.syms['cn'] = bn, cn
+            second = 'C' if 'push' in name else 'T'
+            lv = symx.Interp(dom, lookup_in([fn.module])).run(fn, [Ptr('B', 0), bn, Ptr(second, 0), cn])
+            probs, nq = [], 0
+            for lf in lv:
+                cons0 = [L(0, bn), L(0, cn)]
+                okc = True
+                for c in lf.pc:
+                    cc = lin.cond_constraints(c)
+                    if cc is None or len(cc) != 1:
+                        okc = False
+                        break
+                    cons0 += cc[0]
+                if not okc:
+                    # a path condition that is not linear (e.g. on the remainder): keep going without it
+                    pass
+                ops = []
+                s_sym = None
+                for cname, a in lf.calls:
+                    if cname not in ('a_move', 'a_copy'):
+                        continue
+                    d, s_, sz = a
+                    n_el = sp.expand(sp.sympify(sz) / 8)
+                    ops.append(((d.base, sp.expand(sp.sympify(d.off) / 8)), (s_.base, sp.expand(sp.sympify(s_.off) / 8)), n_el))
+                # the remainder shift_n % block_n is an uninterpreted term: name it and bound it
+                rems = set()
+                for o in ops:
+                    for e in (o[0][1], o[1][1], o[2]):
+                        rems |= set(f_ for f_ in e.atoms(sp.Function) if 'urem' in str(f_.func))
+                if len(rems) > 1:
+                    raise Unsupported('several remainders')
+                sub = {}
+                if rems:
+                    s_sym = sp.Symbol('s', integer=True, nonnegative=True)
+                    sub = {list(rems)[0]: s_sym}
+                    cons0 += [L(s_sym, bn - 1), L(1, bn)]
+                ops = [((d[0], d[1].subs(sub)), (s_[0], s_[1].subs(sub)), n_.subs(sub)) for d, s_, n_ in ops]
+                if not ops:
+                    # no effect: the result is the old block
+                    ops = []
+                for cconds, pieces in spec(name, s_sym if s_sym is not None else sp.Integer(0)):
+                    cons = cons0 + cconds
+                    if fm.unsat(cons):
+                        continue
+                    for pconds, want in pieces:
+                        c2 = cons + [L(0, pos), L(pos, bn - 1)] + pconds
+                        if fm.unsat(c2):
+                            continue
+                        # walk backwards
+                        alts = [(c2, ('B', pos))]
+                        for (darr, a_), (sarr, b_), n_ in reversed(ops):
+                            nxt = []
+                            for cs_, (arr, x_) in alts:
+                                if arr != darr:
+                                    nxt.append((cs_, (arr, x_)))
+                                    continue
+                                ins = cs_ + [L(a_, x_), L(x_, a_ + n_ - 1)]
+                                if not fm.unsat(ins):
+                                    nxt.append((ins, (sarr, sp.expand(x_ - a_ + b_))))
+                                lo = cs_ + [L(x_, a_ - 1)]
+                                if not fm.unsat(lo):
+                                    nxt.append((lo, (arr, x_)))
+                                hi = cs_ + [L(a_ + n_, x_)]
+                                if not fm.unsat(hi):
+                                    nxt.append((hi, (arr, x_)))
+                            alts = nxt
+                        for cs_, (arr, x_) in alts:
+                            nq += 1
+                            same = arr == want[0] and fm.entails(cs_, L(x_, want[1])) and fm.entails(cs_, L(want[1], x_))
+                            if not same:
+                                probs.append('position pos of the block ends up with %s[%s], expected %s[%s]' % (arr, x_, want[0], sp.expand(want[1])))
+            if probs:
+                rep.bad('R5c', name, '; '.join(sorted(set(probs))[:2]), loc=loc, key='%s: contents' % name)
+            else:
+                rep.ok('R5c', name, 'every position of the block receives the element the definition prescribes (%d symbolic queries, sizes symbolic)' % nq, loc=loc)
+        except (Unsupported, fm.NonLinear) as e:
+            rep.unk('R5c', name, str(e), loc=loc)
